@@ -100,3 +100,56 @@ Theorem C17_invocation_rule : forall {K V} now h s (a : action K V),
     end.
 Proof. intros K V. exact (@exec_once_rule K V). Qed.
 Print Assumptions C17_invocation_rule.
+
+(* ---------------- the readiness gate (Model/Gate.v), every trace, every worker limit ---------------- *)
+
+(* When a gated object's processing reaches process_resource_causes — the point from which change handlers, daemons
+   and timers can start — the orchestration blocker is gone, every indexed kind created so far has been listed, and
+   no per-object toggle is left in the set.  (That every object first seen before its kind's LISTED owns such a
+   toggle until it is indexed is validated on recorded traces and by the monitor, not proved here.) *)
+Theorem C17_gate_partial : forall lim tr s o s',
+  grun lim ginit tr = Some s -> gstep lim s (Pass o) = Some s' ->
+  gated (ost s o) = true ->
+  blocker s = false /\ (forall r, won (wst s r) = true -> windexed (wst s r) = true -> listed s r = true) /\
+  (forall o', ~ In o' (otog s)).
+Proof. exact gate_kinds_safety. Qed.
+Print Assumptions C17_gate_partial.
+
+(* an indexed kind blocks readiness until its first LISTED *)
+Theorem C17_gate_unlisted_blocks : forall lim tr s r,
+  grun lim ginit tr = Some s -> won (wst s r) = true -> windexed (wst s r) = true -> listed s r = false ->
+  is_on s = false.
+Proof. exact gate_unlisted_blocks. Qed.
+Print Assumptions C17_gate_unlisted_blocks.
+
+(* ungated workers only exist after the set was open once: a watcher forgets the gate only then *)
+Theorem C17_gate_disarm_after_open : forall lim tr s r,
+  grun lim ginit tr = Some s -> won (wst s r) = true -> armed (wst s r) = false -> opened s = true.
+Proof. exact gate_disarm_after_open. Qed.
+Print Assumptions C17_gate_disarm_after_open.
+
+(* "The gate opens once all listings finished and all first-seen objects can be indexed" is FALSE of the faithful
+   model composed with Scheduler(limit=worker_limit): known finding F11.  worker_limit = 2, three pre-existing
+   objects of one indexed kind: from the state reached by the trace recorded from the real code, on EVERY
+   continuation the set stays closed and no object ever passes. *)
+Theorem C17_gate_opens_limited_refuted :
+  exists s0, grun (Some 2) ginit f11_trace = Some s0 /\
+    blocker s0 = false /\ rtog s0 = [] /\ nseen s0 0 = 3 /\
+    forall tr s, grun (Some 2) s0 tr = Some s -> is_on s = false /\ forall o, ph (ost s o) <> PPassed.
+Proof. exact gate_limited_deadlock. Qed.
+Print Assumptions C17_gate_opens_limited_refuted.
+
+(* the same arrivals with worker_limit >= number of first-seen objects, or without a limit, do open the gate
+   (instances, by computation; the general "opens" theorem is not proved — see the report) *)
+Example C17_gate_opens_three_slots :
+  exists s, grun (Some 3) ginit (f11_trace ++ f11_trace_tail) = Some s /\ is_on s = true /\ passed_count s [0; 1; 2] = 3.
+Proof. exact gate_opens_with_three_slots. Qed.
+Print Assumptions C17_gate_opens_three_slots.
+Example C17_gate_opens_no_limit :
+  exists s, grun None ginit (f11_trace ++ f11_trace_tail) = Some s /\ is_on s = true /\ passed_count s [0; 1; 2] = 3.
+Proof. exact gate_opens_without_limit. Qed.
+Print Assumptions C17_gate_opens_no_limit.
+Example C17_gate_two_slots_refuse_third :
+  exists s, grun (Some 2) ginit f11_trace = Some s /\ gstep (Some 2) s (Start 2) = None /\ gstep (Some 3) s (Start 2) <> None.
+Proof. exact gate_start_refused_with_two_slots. Qed.
+Print Assumptions C17_gate_two_slots_refuse_third.
